@@ -448,3 +448,82 @@ class Gen:
             v = r.choice(MAG_VALUES[mag])
             return {"k": "ins", "m": m, "shape": shape, "sz": "", "e": [num(v, r.choice("xXd"))]}
         return {"k": "ins", "m": "nop", "shape": "imp", "sz": "", "e": None}
+
+
+# ---------------------------------------------------------------------------------------------------------------------
+def stress_program(rng: random.Random) -> dict:
+    """Programs that are large in one dimension (the sizes real projects reach, which small random programs never do):
+    many labels, deep nesting, long loops, many applications, long identifiers, long lists, many position moves, many scopes."""
+    kind = rng.choice(["many_labels", "deep_blocks", "big_loop", "nested_loops", "many_applications", "long_identifiers", "long_lists",
+                       "many_moves", "many_scopes", "long_expression"])
+    rom = rng.choice(["low", "high"])
+    start = 0xC00000 if rom == "high" else 0x008000
+    body: list = [{"k": "org", "e": E(start + rng.choice([0, 0x10, 0x7FF0]))}]
+    db = lambda *es: {"k": "data", "d": "db", "es": [e if isinstance(e, list) else E(e) for e in es]}  # noqa: E731
+    nop = {"k": "ins", "m": "nop", "shape": "imp", "sz": "", "e": None}
+    if kind == "many_labels":
+        n = rng.choice([257, 300, 700, 1500])
+        for i in range(n):
+            body += [{"k": "label", "n": f"ml{i}"}, db(i & 0xFF) if i % 3 else nop]
+        body += [{"k": "data", "d": "dl", "es": [E(f"ml{rng.randrange(n)}") for _ in range(40)] + [E(f"ml{n - 1}"), E("ml0"), E("ml255"), E("ml256")]}]
+    elif kind == "deep_blocks":
+        depth = rng.choice([17, 33, 65])
+        inner: list = [{"k": "data", "d": "dl", "es": [E(f"dp{i}") for i in range(0, depth, max(1, depth // 9))] + [E("dp0")]}, {"k": "label", "n": "dpin"}]
+        for i in reversed(range(depth)):
+            wrap = {"k": "block", "b": [{"k": "label", "n": f"dp{i}"}, db(i)] + inner + [db(0xB0 | (i & 15))]} if i % 5 else \
+                   {"k": "scope", "n": f"dns{i}", "b": [{"k": "label", "n": f"dp{i}"}, db(i)] + inner}
+            inner = [wrap]
+        body += inner + [{"k": "label", "n": "dpend"}, {"k": "data", "d": "dl", "es": [E("dpend")]}]
+    elif kind == "big_loop":
+        n = rng.choice([255, 256, 257, 300, 1000])
+        a = rng.choice([0, 1, 0xFFF0])
+        body += [{"k": "assign", "n": "bln", "e": E(a + n)},
+                 {"k": "for", "v": "bli", "a": E(a), "b": E("bln"), "body": [{"k": "label", "n": "blh"}, {"k": "data", "d": "dw", "es": [E("bli")]},
+                                                                             {"k": "if", "c": E("bli", "&", 0x80), "t": [db(E("bli", ">>", 8))], "e": None}]},
+                 {"k": "label", "n": "blend"}, {"k": "data", "d": "dl", "es": [E("blend")]}]
+    elif kind == "nested_loops":
+        n, m = rng.choice([(17, 17), (33, 9), (5, 65)])
+        body += [{"k": "for", "v": "nli", "a": E(0), "b": E(n), "body": [
+            {"k": "for", "v": "nlj", "a": E("nli"), "b": E(m), "body": [db(E("nli", "*", 16, "+", "nlj"))]}, {"k": "label", "n": "nlh"}, {"k": "data", "d": "dw", "es": [E("nlh")]}]},
+            {"k": "label", "n": "nlend"}, {"k": "data", "d": "dl", "es": [E("nlend")]}]
+    elif kind == "many_applications":
+        n = rng.choice([130, 300, 600])
+        body += [{"k": "macro", "n": "mapp", "ps": ["mpa", "mpb"], "b": [{"k": "label", "n": "mloc"}, db(E("mpa"), E("mpb")), {"k": "data", "d": "dw", "es": [E("mloc")]}]}]
+        body += [{"k": "call", "n": "mapp", "as": [E(i & 0xFF), E("mafter" if i % 7 == 0 else (i >> 8))]} for i in range(n)]
+        body += [{"k": "label", "n": "mafter"}, {"k": "data", "d": "dl", "es": [E("mafter")]}]
+    elif kind == "long_identifiers":
+        names = ["v" + "_long" * rng.choice([5, 12, 30]) + str(i) for i in range(6)]
+        body += [{"k": "assign", "n": names[0], "e": E(0x1234)}, {"k": "label", "n": names[1]}, db(E(names[0], "&", 0xFF)),
+                 {"k": "scope", "n": names[2], "b": [{"k": "label", "n": names[3]}, nop]},
+                 {"k": "macro", "n": names[4], "ps": [names[5]], "b": [db(E(names[5]))]}, {"k": "call", "n": names[4], "as": [E(names[0], ">>", 8)]},
+                 {"k": "data", "d": "dl", "es": [E(names[1]), E(names[2] + "." + names[3])]},
+                 {"k": "ins", "m": "jmp", "shape": "dir", "sz": "w", "e": E(names[1])}]
+    elif kind == "long_lists":
+        n = rng.choice([256, 300, 1000])
+        body += [{"k": "data", "d": rng.choice(["db", "dw", "dl"]), "es": [E(rng.randrange(1 << 24)) for _ in range(n)]},
+                 {"k": "label", "n": "llmid"}, {"k": "ascii", "t": "".join(rng.choice("abc xyz019") for _ in range(rng.choice([255, 256, 3000])))},
+                 {"k": "label", "n": "llend"}, {"k": "data", "d": "dl", "es": [E("llmid"), E("llend")]}]
+    elif kind == "many_moves":
+        n = rng.choice([65, 130, 260])
+        bank0 = 0xC0 if rom == "high" else 0x00
+        order = list(range(n))
+        if rng.random() < 0.5:
+            rng.shuffle(order)
+        for i in order:
+            addr = ((bank0 + (i % 0x30)) << 16) | (0x8000 + (i // 0x30) * 0x40)
+            body += [{"k": "org", "e": E(addr)}, {"k": "label", "n": f"mv{i}"}, db(i & 0xFF, (i >> 8) & 0xFF)]
+        body += [{"k": "data", "d": "dl", "es": [E(f"mv{i}") for i in (0, 1, n // 2, n - 1)]}]
+    elif kind == "many_scopes":
+        n = rng.choice([257, 300, 600])
+        for i in range(n):
+            body.append({"k": "block", "b": [{"k": "label", "n": "same"}, db(i & 0xFF), {"k": "data", "d": "dw", "es": [E("same")]}]} if i % 4 else
+                        {"k": "scope", "n": f"msn{i}", "b": [{"k": "label", "n": "same"}, db(i & 0xFF)]})
+        body += [{"k": "data", "d": "dl", "es": [E("msn0.same"), E(f"msn{(n - 1) // 4 * 4}.same")]}]
+    else:  # long_expression
+        n = rng.choice([64, 200])
+        toks: list = [num(1)]
+        val_ops = ["+", "-", "*", "&", "+", "+"]
+        for i in range(n):
+            toks += [["op", rng.choice(val_ops)], num(rng.randrange(1, 9))]
+        body += [{"k": "assign", "n": "lexp", "e": toks}, {"k": "data", "d": "dl", "es": [E("lexp"), toks]}]
+    return {"prog": body, "files": {}, "tables": {}, "rom": rom, "family": "stress:" + kind}
